@@ -201,3 +201,104 @@ Proof.
   destruct (is_increasing (lst (e_write e))); [|discriminate]. cbn [negb orb] in H.
   destruct (intersect _ _) eqn:I; [|discriminate]. apply intersect_iff in I. repeat split; auto.
 Qed.
+
+(* ------------------------------------------------------------ epoch short forms *)
+Lemma dec_inj : forall a b, dec a = dec b -> a = b.
+Proof. intros a b H. pose proof (undec_dec a) as A. rewrite H, undec_dec in A. congruence. Qed.
+
+Lemma forallb_rev : forall (p : N -> bool) l, forallb p l = true -> forallb p (rev l) = true.
+Proof.
+  intros p l H. rewrite forallb_forall in *. intros x Hx. apply H. apply in_rev. exact Hx.
+Qed.
+
+Lemma strip_star_dec : forall n, strip_star (dec n) = (false, dec n).
+Proof.
+  intros n. unfold strip_star. pose proof (forallb_rev _ _ (dec_digits n)) as D.
+  destruct (rev (dec n)) as [|c m]; [reflexivity|]. cbn [forallb] in D. apply andb_prop in D. destruct D as [D _].
+  rewrite (neqb_of_digit c 42 D) by lia. reflexivity.
+Qed.
+
+Lemma strip_star_dec_star : forall n, strip_star (dec n ++ [42]) = (true, dec n).
+Proof.
+  intros n. unfold strip_star. rewrite rev_app_distr. cbn [rev app]. change (42 =? 42) with true. cbv iota.
+  rewrite rev_involutive. reflexivity.
+Qed.
+
+Lemma parse_u32_dec : forall n, n < two32 -> parse_u32 (dec n) = Some n.
+Proof.
+  intros n Hn. unfold parse_u32.
+  assert (U : match undec (dec n) with Some v => if v <? two32 then Some v else None | None => None end = Some n).
+  { rewrite undec_dec. destruct (N.ltb_spec n two32); [reflexivity|lia]. }
+  destruct (dec n) as [|c [|d r]] eqn:E; try exact U.
+  destruct (N.eqb_spec c 48) as [->|Hc]; [|exact U].
+  exfalso. eapply dec_leading_zero; eauto.
+Qed.
+
+Lemma beq_dec_star_zero : forall n, beq (dec n ++ [42]) [48] = false.
+Proof.
+  intros n. destruct (dec_hd_digit n) as (c & r & E & _). rewrite E. cbn [app beq].
+  destruct r; cbn [app beq]; rewrite andb_false_r; reflexivity.
+Qed.
+
+Lemma is_nil_b_dec : forall n, is_nil_b (dec n) = false.
+Proof. intros n. pose proof (dec_nonempty n). destruct (dec n); [congruence|reflexivity]. Qed.
+
+Lemma list_eqb_refl : forall l, list_eqb l l = true.
+Proof. induction l as [|x l IH]; cbn; [reflexivity|]. rewrite N.eqb_refl, IH. reflexivity. Qed.
+
+Definition wf32 (e : epoch) : Prop := Forall (fun x => x < two32) (lst (e_read e)) /\ Forall (fun x => x < two32) (lst (e_write e)).
+
+Lemma from_string_dec : forall n, n < two32 -> n <> 0 -> from_string (dec n) = Some (mkEpoch (Some [n]) (Some [n])).
+Proof.
+  intros n Hn N0. unfold from_string. rewrite is_nil_b_dec. cbn [orb].
+  destruct (beq (dec n) [48]) eqn:B.
+  - exfalso. apply beq_true in B. change [48] with (dec 0) in B. apply dec_inj in B. congruence.
+  - rewrite strip_star_dec, parse_u32_dec by exact Hn. reflexivity.
+Qed.
+
+Lemma from_string_dec_star : forall n, n < two32 -> n <> 0 ->
+  from_string (dec n ++ [42]) = Some (mkEpoch (Some [n - 1; n]) (Some [n])).
+Proof.
+  intros n Hn N0. unfold from_string.
+  assert (Nn : is_nil_b (dec n ++ [42]) = false) by (destruct (dec n); reflexivity).
+  rewrite Nn, beq_dec_star_zero. cbn [orb]. rewrite strip_star_dec_star, parse_u32_dec by exact Hn.
+  destruct (N.eqb_spec n 0); [congruence|reflexivity].
+Qed.
+
+Lemma is_short_struct : forall r w, is_short (json_struct r w) = false.
+Proof. reflexivity. Qed.
+
+(* every valid epoch whose printed form is a short form (N or N* or 0) reads back Equal from it *)
+Lemma epoch_short_roundtrip : forall e, validate e = 0 -> wf32 e -> is_short (epoch_string e) = true ->
+  exists e', from_string (epoch_string e) = Some e' /\ epoch_equal e e' = true.
+Proof.
+  intros e V [Wr Ww] S. unfold epoch_string in *. unfold epoch_equal.
+  destruct (is_zero e) eqn:Z.
+  - exists (mkEpoch (Some [0]) (Some [0])). split; reflexivity.
+  - destruct (validate_ok_spec e V) as [Z1|(_ & _ & Ir & _ & _)]; [congruence|].
+    destruct (lst (e_read e)) as [|r0 [|r1 [|r2 rr]]] eqn:R;
+    destruct (lst (e_write e)) as [|w0 [|w1 ww]] eqn:W; try (cbv iota beta in S; rewrite is_short_struct in S; discriminate); cbv iota beta in S |- *.
+    + (* [r0], [w0] *)
+      destruct (N.eqb_spec r0 w0) as [<-|Ne]; [|rewrite is_short_struct in S; discriminate].
+      assert (N0 : r0 <> 0).
+      { intros ->. unfold is_zero in Z. rewrite R, W in Z. cbn in Z. discriminate. }
+      pose proof (Forall_inv Wr) as H0. cbn beta in H0. eexists. split; [apply from_string_dec; assumption|].
+      cbn [lst e_read e_write]. rewrite !list_eqb_refl. reflexivity.
+    + (* [r0; r1], [w0] *)
+      destruct ((((r0 + 1) mod two32) =? r1) && (r1 =? w0)) eqn:C; [|rewrite is_short_struct in S; discriminate].
+      apply andb_prop in C. destruct C as [C1 C2]. apply N.eqb_eq in C1, C2.
+      cbn [is_increasing] in Ir. rewrite andb_true_r in Ir. apply N.ltb_lt in Ir.
+      pose proof (Forall_inv Wr) as H0. pose proof (Forall_inv (Forall_inv_tail Wr)) as H1. cbn beta in H0, H1.
+      assert (Hr1 : r1 = r0 + 1).
+      { unfold two32 in *. destruct (N.eq_dec (r0 + 1) 4294967296) as [E|E].
+        - rewrite E, N.mod_same in C1 by lia. lia.
+        - rewrite N.mod_small in C1 by lia. lia. }
+      clear C1. subst w0. subst r1.
+      eexists. split; [apply from_string_dec_star; [assumption|lia]|].
+      cbn [lst e_read e_write]. replace (r0 + 1 - 1) with r0 by lia. rewrite !list_eqb_refl. reflexivity.
+Qed.
+
+Example epoch_short_roundtrip_nonvacuous :
+  let e := mkEpoch (Some [4; 5]) (Some [5]) in
+  validate e = 0 /\ is_short (epoch_string e) = true /\ epoch_string e = [53; 42].
+Proof. vm_compute. repeat split; reflexivity. Qed.
